@@ -93,8 +93,11 @@ def run_case(rng, res, idx, tier):
     for pi, pl in enumerate(pls):
         sp = copy.deepcopy(spec)
         sp['cfg'].update(pl)
+        # only the first placement reads the factors back every step (needed for the tolerance); reading them waits on the
+        # factor futures, so the other placements run without it and communication may stay in flight across iterations
+        sp['record'] = ['factors'] if base is None else []
         policy = rng.choice(simdist.POLICIES)
-        run = scenario.run(sp, W, seed=rng.randrange(10 ** 6), policy=policy, stress=(rng.random() < 0.15))
+        run = scenario.run(sp, W, seed=rng.randrange(10 ** 6), policy=policy, stress=(rng.random() < 0.15), deliver_prob=rng.choice([0.05, 0.3, 0.6, 1.0]))
         res.count('worlds_run')
         if run.inconclusive:
             res.inconclusive.append('simulator watchdog fired')
